@@ -191,6 +191,8 @@ class Report:
         self.assumptions = []
         self.violations = []   # (replay_path, not_found:bool)
         self.known = []
+        self.known_hits = {}
+        self.key_counts = {}
         self.notes = []
 
     def add_obligations(self, n, discharged):
@@ -201,13 +203,19 @@ class Report:
         """replay_obj: dict describing the concrete failing input (or the broken obligation).
         If `key` matches a known finding for this property, it is printed as KNOWN-FINDING."""
         if key is not None:
+            import fnmatch
             for k in known_findings():
-                if k["kind"] == "known" and k["property"] == self.prop and k["key"] == key:
-                    msg = "KNOWN-FINDING: property=%s %s %s" % (self.prop, key, k["text"])
+                if k["kind"] == "known" and k["property"] == self.prop and fnmatch.fnmatchcase(key, k["key"]):
+                    msg = "KNOWN-FINDING: property=%s %s %s" % (self.prop, k["key"], k["text"])
                     if msg not in self.known:
                         self.known.append(msg)
                         print(msg)
+                    self.known_hits[k["key"]] = self.known_hits.get(k["key"], 0) + 1
                     return
+            # one VIOLATION line per distinct key (the first failing input is the replay)
+            self.key_counts[key] = self.key_counts.get(key, 0) + 1
+            if self.key_counts[key] > 1:
+                return
         os.makedirs(REPLAY, exist_ok=True)
         idx = len(self.violations)
         path = os.path.join(REPLAY, "%s-%d-%d.json" % (self.prop, int(self.t0), idx))
@@ -230,6 +238,9 @@ class Report:
         }
         if self.known:
             ev["coverage"]["known_findings_reported"] = self.known
+            ev["coverage"]["known_finding_hits"] = self.known_hits
+        if self.key_counts:
+            ev["coverage"]["violation_keys"] = self.key_counts
         if self.notes:
             ev["coverage"]["notes"] = self.notes
         with open(os.path.join(EVID, self.prop + ".json"), "w") as fh:
